@@ -36,6 +36,7 @@ def gen_cases(ctx):
     singles = [{"a": v} for v in vals]
     singles += [{"a": v, "b": w} for v in gen.SMALL_ATOMS for w in gen.SMALL_ATOMS]
     singles += [{}, {"k é": {"": [1, 1.0, True, "1", None]}}]
+    singles += [{"species": [{"n": 10}, {"n": 20}]}, {"a": [[1, 2], {"b": [3]}]}, {"a": {"b": [{"c": [1]}]}}] * 40
     rng.shuffle(singles)
     singles = singles[: ctx.budget(6000, 60000)]
     singles += [gen.rand_sp(rng, depth=rng.randint(1, 5)) for _ in range(ctx.budget(3000, 40000))]
@@ -75,18 +76,32 @@ def gen_cases(ctx):
         i += 1
 
 
+def _tuple_spelling(x):
+    """The same JSON value with every array spelt as a tuple (mutable elements stay mutable)."""
+    if isinstance(x, dict):
+        return {k: _tuple_spelling(v) for k, v in x.items()}
+    if isinstance(x, list):
+        return tuple(_tuple_spelling(v) for v in x)
+    return x
+
+
 def _mutate_nested(x, rng_token=0):
     """Mutate a nested mapping/list in place as hostile caller code would."""
+    if isinstance(x, tuple):
+        for v in x:
+            if isinstance(v, (dict, list, tuple)):
+                _mutate_nested(v)
+        return
     if isinstance(x, dict):
         for k in list(x):
-            if isinstance(x[k], (dict, list)):
+            if isinstance(x[k], (dict, list, tuple)):
                 _mutate_nested(x[k])
             else:
                 x[k] = "MUTATED"
         x["__extra__"] = 1
     elif isinstance(x, list):
         for n, v in enumerate(x):
-            if isinstance(v, (dict, list)):
+            if isinstance(v, (dict, list, tuple)):
                 _mutate_nested(v)
             else:
                 x[n] = "MUTATED"
@@ -104,6 +119,8 @@ def run_single(ctx, case):
     project = sig.new_project(ctx)
     root = project.path
     arg = copy.deepcopy(sp)
+    if case.get("byid_first"):
+        arg = _tuple_spelling(arg)  # arrays as tuples: their mutable elements are still the caller's objects
     # 1. lazy open: nothing may be written
     before = model.snapshot(root)
     with fsmon.Session([root], readonly=[root]) as s:
